@@ -223,7 +223,9 @@ func (l *limiter) Close() {
 	if !l.closed {
 		l.close()
 		if l.parent == nil {
+			l.controller.lock.Unlock()
 			l.controller.done <- true
+			return
 		} else {
 			for i, child := range l.parent.children {
 				if child != l {
